@@ -15,6 +15,8 @@ use std::time::{Duration, Instant};
 pub enum TOp {
     AddAuth(u8),
     AddCached(u8, u32, bool),
+    /// the same, but the record crosses the wire and is ingested by the receive loop's own function
+    Receive(u8, u32, bool),
     Remove(u8),
     Clear,
     /// virtual time: age every cached entry by this many milliseconds
@@ -87,6 +89,25 @@ fn run_history(ops: &[TOp], case: &mut Case, allow_sleep: bool) -> Result<(), Fa
                 lib("add_cached_resource", || store.add_cached_resource(rr))?;
                 let t1 = Instant::now();
                 // locally registered records never expire and never become cache entries
+                if model[i] != Some(MKind::Auth) {
+                    let life_ms = if *flush { 1000 } else { *ttl as u64 * 1000 };
+                    model[i] = Some(MKind::Cached { v_add: vnow, t0, t1, life_ms });
+                }
+            }
+            TOp::Receive(i, ttl, flush) => {
+                let i = *i as usize % recs.len();
+                let mut rr = built[i].clone();
+                rr.ttl = *ttl;
+                rr.cache_flush = *flush;
+                let mut pk = simple_dns::Packet::new_reply(0);
+                pk.answers.push(rr);
+                let bytes = ser_compressed(&pk)?;
+                let parsed = parse(&bytes)?.map_err(|e| Fail::new("c20:unparseable", format!("{:?}", e)))?;
+                let service = lname(&nm("local")).into_owned();
+                let own = lname(&nm("self.local")).into_owned();
+                let t0 = Instant::now();
+                lib("add_response_to_resources", || simple_mdns::verif::verif_add_response_to_resources(parsed, &service, &own, &mut store, &mut None))?;
+                let t1 = Instant::now();
                 if model[i] != Some(MKind::Auth) {
                     let life_ms = if *flush { 1000 } else { *ttl as u64 * 1000 };
                     model[i] = Some(MKind::Cached { v_add: vnow, t0, t1, life_ms });
@@ -210,7 +231,8 @@ fn check_real(ops: &Vec<TOp>, case: &mut Case) -> Result<(), Fail> {
 fn virtual_strategy(_t: Tier) -> BoxedStrategy<Vec<TOp>> {
     let op = prop_oneof![
         2 => (0u8..6).prop_map(TOp::AddAuth),
-        6 => (0u8..6, select(vec![0u32, 1, 2, 3600]), proptest::bool::weighted(0.3)).prop_map(|(i, t, f)| TOp::AddCached(i, t, f)),
+        4 => (0u8..6, select(vec![0u32, 1, 2, 3600]), proptest::bool::weighted(0.3)).prop_map(|(i, t, f)| TOp::AddCached(i, t, f)),
+        3 => (0u8..6, select(vec![0u32, 1, 2, 3600]), proptest::bool::weighted(0.4)).prop_map(|(i, t, f)| TOp::Receive(i, t, f)),
         1 => (0u8..6).prop_map(TOp::Remove),
         1 => Just(TOp::Clear),
         6 => select(vec![0u32, 1, 499, 999, 1000, 1001, 2000, 3_599_999, 3_600_000]).prop_map(TOp::Advance),
@@ -221,7 +243,8 @@ fn virtual_strategy(_t: Tier) -> BoxedStrategy<Vec<TOp>> {
 fn real_strategy(_t: Tier) -> BoxedStrategy<Vec<TOp>> {
     let op = prop_oneof![
         1 => (0u8..6).prop_map(TOp::AddAuth),
-        5 => (0u8..6, select(vec![0u32, 1, 2]), proptest::bool::weighted(0.3)).prop_map(|(i, t, f)| TOp::AddCached(i, t, f)),
+        3 => (0u8..6, select(vec![0u32, 1, 2]), proptest::bool::weighted(0.3)).prop_map(|(i, t, f)| TOp::AddCached(i, t, f)),
+        3 => (0u8..6, select(vec![0u32, 1, 2]), proptest::bool::weighted(0.4)).prop_map(|(i, t, f)| TOp::Receive(i, t, f)),
         1 => (0u8..6).prop_map(TOp::Remove),
         4 => select(vec![250u16, 600, 1050]).prop_map(TOp::Sleep),
     ];
@@ -244,7 +267,7 @@ fn real_strategy(_t: Tier) -> BoxedStrategy<Vec<TOp>> {
 pub fn def() -> CheckDef {
     CheckDef {
         id: "C20",
-        rule: "model-based histories over 6 records on x.local / y.x.local / z.local: add-authoritative, add-cached(ttl in {0,1,2,3600}, cache-flush), re-add, remove, clear and time advances {0,1,499,999,1000,1001,2000,3599999,3600000 ms}; after every step every (name in {x.local,y.x.local,z.local,local,w.local}) x (authoritative(false), authoritative(true), cached(), all()) query is compared with a reference model holding explicit reception instants: a cached record must be returned while certainly younger than its life (ttl, or 1 s with cache-flush) and must not be returned once certainly older; ttl 0 is never returned; authoritative records are returned by authoritative filters at every time, never by cached(), and stay authoritative when the same record is received from the network; removal / clear are immediate. Virtual time = additive ageing hook verif_age; each claim is made only if measured monotonic time around the calls proves it (else counted as undetermined). A second section runs short histories on the real clock with sleeps and no ageing. Non-trivial = a cached record was observed after its expiry was crossed",
+        rule: "model-based histories over 6 records on x.local / y.x.local / z.local: add-authoritative, add-cached(ttl in {0,1,2,3600}, cache-flush) either directly or as a record that crosses the wire in a compressed packet and is ingested by the receive loop's add_response_to_resources, re-add, remove, clear and time advances {0,1,499,999,1000,1001,2000,3599999,3600000 ms}; after every step every (name in {x.local,y.x.local,z.local,local,w.local}) x (authoritative(false), authoritative(true), cached(), all()) query is compared with a reference model holding explicit reception instants: a cached record must be returned while certainly younger than its life (ttl, or 1 s with cache-flush) and must not be returned once certainly older; ttl 0 is never returned; authoritative records are returned by authoritative filters at every time, never by cached(), and stay authoritative when the same record is received from the network; removal / clear are immediate. Virtual time = additive ageing hook verif_age; each claim is made only if measured monotonic time around the calls proves it (else counted as undetermined). A second section runs short histories on the real clock with sleeps and no ageing. Non-trivial = a cached record was observed after its expiry was crossed",
         assumptions: vec![
             "verif_age(d) subtracts d from every stored instant; the store only compares stored instants with Instant::now(), so this equals advancing the clock (cross-checked by the real-clock section)",
             "claims whose outcome depends on the few microseconds a call takes are withheld and counted (coverage.maxima.undetermined_claims)",
